@@ -7,7 +7,7 @@ export GOFLAGS=-mod=mod GOPROXY=off GOSUMDB=off GOTOOLCHAIN=local GOWORK=off CGO
 prop="$1"; tier="${2:-${VERIF_TIER:-quick}}"
 need=0
 [ -x bin/gvlint ] || need=1
-if [ $need -eq 0 ] && [ -n "$(find checker -newer bin/gvlint \( -name '*.go' -o -name go.mod \) -print -quit 2>/dev/null)" ]; then need=1; fi
+if [ $need -eq 0 ] && [ -n "$(find checker -newer bin/gvlint \( -name '*.go' -o -name go.mod -o -name '*.json' \) -print -quit 2>/dev/null)" ]; then need=1; fi
 if [ $need -eq 1 ]; then
   mkdir -p bin
   (cd checker && go build -o ../bin/gvlint.tmp.$$ . && mv ../bin/gvlint.tmp.$$ ../bin/gvlint) || { echo "UNDECIDED property=$prop cannot build checker"; exit 2; }
